@@ -151,6 +151,12 @@ def build(seq):
                                       reward=row["lr"], probability=row["p"], **extra)
         else:
             raise ValueError(kind)
+        ko = row.get("ko", 0)
+        if ko:   # same mapping, other key insertion order (an interaction produced by another code path)
+            keys = list(it)
+            keys = keys[ko % len(keys):] + keys[:ko % len(keys)]
+            if ko >= 3: keys.reverse()
+            for k in keys: it[k] = it.pop(k)
         out.append(it)
     return out
 
@@ -294,6 +300,7 @@ def seqs(draw, tier, ctx_kinds=("none", "num", "str", "list", "tuple", "head", "
     str_actions = e.upto(2) == 1
     fixed_k = e.pick([None, None, 1, 2, 3])
     nums = NUMS[:4] if e.upto(2) else NUMS    # few distinct values -> ties
+    mixed_keys = e.upto(3) == 1               # interactions of one environment whose keys were inserted in different orders
     rows = []
     for code in draw(st.lists(CODES, min_size=n, max_size=n)):
         r = Digits(code)
@@ -320,6 +327,7 @@ def seqs(draw, tier, ctx_kinds=("none", "num", "str", "list", "tuple", "head", "
             row["la"] = r.upto(4)
             row["lr"] = r.pick([0, 1, 0.5, -1.0])
             row["p"] = r.pick([0.25, 0.5, 1.0])
+        if mixed_keys and r.upto(2): row["ko"] = 1 + r.upto(5)
         rows.append(row)
     seq["rows"] = rows
     return seq
@@ -327,7 +335,8 @@ def seqs(draw, tier, ctx_kinds=("none", "num", "str", "list", "tuple", "head", "
 def seq_classes(seq):
     n = len(seq["rows"])
     return [f"kind={seq['kind']}", f"ctx={seq['ctx']}", "N=0" if n == 0 else "N=1" if n == 1 else "N=2-4" if n <= 4 else "N>=5",
-            f"input={'iterator' if seq['it'] else 'list'}", f"rewards={seq['rwd']}" if seq["kind"] != "log" else "rewards=n/a"]
+            f"input={'iterator' if seq['it'] else 'list'}", f"rewards={seq['rwd']}" if seq["kind"] != "log" else "rewards=n/a",
+            f"key-order={'mixed' if len({r.get('ko', 0) for r in seq['rows']}) > 1 else 'uniform'}"]
 
 def sample_view(case):
     seq = case["seq"]
@@ -335,6 +344,7 @@ def sample_view(case):
     view["seq"] = {k: v for k, v in seq.items() if k != "rows"}
     view["seq"]["N"] = len(seq["rows"])
     view["seq"]["contexts"] = [r["c"] for r in seq["rows"]][:12]
+    if any(r.get("ko") for r in seq["rows"]): view["seq"]["key_orders"] = [r.get("ko", 0) for r in seq["rows"]][:12]
     return view
 
 # =============================================================================================== order: Shuffle, Riffle, Sort
@@ -675,6 +685,28 @@ def run_identity(case):
         for _ in range(k): next(g)
         g.close()
         fed.expect(filt2.filter(fed.feed()), ident, "Cache, complete read after an abandoned partial read", n_slice=f["n_slice"], abandoned_after=k)
+        # a generated history on one Cache object; readers may edit the interaction mappings they were handed (every read hands out
+        # private shallow copies): set a field, delete a field, add a field - nothing deeper than the mapping itself
+        hist = [list(h) for h in f.get("hist", [])]
+        if hist:
+            filt3 = F.Cache(f["n_slice"]) if f["n_slice"] is not None else F.Cache()
+            for t, step in enumerate(hist):
+                what = f"Cache history {hist}, step {t}"
+                g = iter(filt3.filter(fed.feed()))
+                if step[0] in ("full", "mut"):
+                    out = fed.expect(g, ident, what, n_slice=f["n_slice"])
+                else:
+                    k = step[1] % (n + 1)
+                    out = fed.expect([next(g) for _ in range(k)], ident[:k], what + " (partial read)", n_slice=f["n_slice"])
+                    g.close()
+                if step[0] in ("mut", "partialmut"):
+                    for o in out:
+                        o["context"] = "edited by the reader"
+                        o.pop(next(k for k in o if k != "context"), None)
+                        o["added by the reader"] = t
+                fed.check_untouched(what + ": Cache (the reader edited only the mappings it was handed)")
+            fed.expect(filt3.filter(fed.feed()), ident, f"Cache, complete read after the history {hist}", n_slice=f["n_slice"])
+            fed.check_untouched(f"Cache history {hist}")
     elif op == "batch":
         size = f["size"]
         b = F.Batch(size)
@@ -737,6 +769,8 @@ def identity_cases(draw, tier):
         f["params"] = draw(st.dictionaries(st.sampled_from(["a", "b", "env"]), st.one_of(st.integers(0, 3), st.text("xy", max_size=2)), max_size=2))
     if op == "cache":
         f["n_slice"] = draw(st.one_of(st.none(), st.integers(1, 4), around(n, lo=1), st.just(25)))
+        steps = draw(st.lists(st.integers(0, 5 * (n + 1) - 1), min_size=1, max_size=4))
+        f["hist"] = [[["mut"], ["full"], ["mut"], ["partial", c // 5], ["partialmut", c // 5]][c % 5] for c in steps]
     if op == "batch":
         f["size"] = draw(st.one_of(st.sampled_from([None, 0, 1, 2, 3]), around(n, lo=1)))
     if op == "batchsafe":
@@ -763,6 +797,9 @@ def identity_classes(case):
     if f["op"] == "cache":
         s = f["n_slice"]
         out.append("cache-slice=" + ("default" if s is None else ">=N" if s >= n else "divides-N" if n and n % s == 0 else "ragged"))
+        kinds = {h[0] for h in f.get("hist", [])}
+        out.append("cache-history=" + ("none" if not kinds else "reader-edits" if kinds & {"mut", "partialmut"} else "reads-only"))
+        if kinds & {"partial", "partialmut"}: out.append("cache-history-has-partial-read")
     return out
 
 # =============================================================================================== Environments shortcuts
